@@ -31,6 +31,7 @@ type seqOracle struct {
 	fails     []OracleFailure
 	tampered  bool
 	cacheLost bool
+	pubRegressedMulti bool // a multi-instance publication regress (F3) was observed in this scenario
 	acks      []*seqSub
 	scenario  func() any
 }
@@ -238,6 +239,9 @@ func (o *seqOracle) onUpload(inst int, key string, data []byte, opts *ctlog.Uplo
 					sig = "pub-regress:multi-instance"
 				}
 				o.fail("C06", sig, "published checkpoint went from (size %d, ts %d) to (size %d, ts %d)", p.N, p.TS, c.N, c.TS)
+				if sig == "pub-regress:multi-instance" {
+					o.pubRegressedMulti = true
+				}
 			}
 		}
 		o.pubHist = append(o.pubHist, c)
@@ -539,7 +543,15 @@ func (o *seqOracle) afterLoad(in *seqInst, err error, faultFree bool) {
 	lc := w.keys.parseCk(lockRaw)
 	if err != nil {
 		if faultFree && !o.tampered && w.clock >= lc.TS && in.cfg.Name == w.name && in.cfg.Key == w.key {
-			o.fail("C03", "unrecoverable", "LoadLog failed without any injected fault or tampering (lock size %d): %v", lc.N, err)
+			sig := "unrecoverable"
+			// F9: a stale instance overwrote the checkpoint object with an older one (F3) after the newer
+			// round's staging bundle had been discarded; LoadLog then misses the bundle it thinks it needs.
+			if o.pubRegressedMulti && strings.Contains(err.Error(), "couldn't fetch staged uploads") {
+				if p := o.pubHist; len(p) > 0 && p[len(p)-1].OK && p[len(p)-1].N < lc.N {
+					sig = "unrecoverable:staging-discarded-then-multi-instance-pub-regress"
+				}
+			}
+			o.fail("C03", sig, "LoadLog failed without any injected fault or tampering (lock size %d): %v", lc.N, err)
 		}
 		return
 	}
